@@ -245,6 +245,9 @@ def build_instance(r, s, meta, n, scenario):
                     x.kids = [forms(tcode, k1)[0]]
         b.attrs = [(ns, l, cp(tcode, k1 + 1000) if l == 'id2' else v) for (ns, l, v) in b.attrs]
         a.attrs = [(ns, l, cp(tcode, k1 + 1000) if l == 'id2' else v) for (ns, l, v) in a.attrs]
+        if scenario == 'cross-group-dup' and meta['with_ref']:
+            # a reference to the value that now exists in two scopes (ambiguous when both tables propagate to one ancestor)
+            db.kids.append(mk_ref(s, meta, cp(tid, k1), cp(tcode, k1), cp(tcode, k1 + 1000)))
     elif scenario == 'near-miss' and items:
         k1, c1, a = r.choice(items)
         nm_id, nm_code = near_miss(tid, k1), near_miss(tcode, k1)
@@ -478,8 +481,8 @@ def run(tier):
     ck = core.Check(PID, tier)
     binary = build.ensure('asan', parts=['parse', 'domdump'])
     nproc = max(2, min(core.NCPU, int(os.environ.get('XV_PROCS', core.NCPU))))
-    nschemas = int(os.environ.get('XV_C10_N', 120 if tier == 'quick' else 2000))      # XV_C10_N: development knob
-    chunk = 120 if tier == 'quick' else 250
+    nschemas = int(os.environ.get('XV_C10_N', 80 if tier == 'quick' else 2400))      # XV_C10_N: development knob
+    chunk = 80 if tier == 'quick' else 200
     stats = collections.Counter()
     scen_seen = collections.Counter()
     viol_seen = collections.Counter()
